@@ -144,8 +144,8 @@ def run(repo, rep, tier):
     names = [a.arg for a in fn.args.args]
     outs = outcomes(repo, "Epoch", "Epoch.dow", arg_terms={names[0]: ("epoch", T.sym("J"))})
     rets = [o for o in outs if o.kind == "ret"]
-    num_rets = [o for o in rets if not any(x[0] == "list" for x in T.walk(o.value))]
-    str_rets = [o for o in rets if any(x[0] == "list" for x in T.walk(o.value))]
+    num_rets = [o for o in rets if not any(x[0] in ("list", "tuple") for x in T.walk(o.value))]
+    str_rets = [o for o in rets if any(x[0] in ("list", "tuple") for x in T.walk(o.value))]
     ok = False
     if num_rets:
         v = num_rets[0].value
@@ -162,7 +162,7 @@ def run(repo, rep, tier):
     names_ok = False
     for o in str_rets:
         for x in T.walk(o.value):
-            if x[0] == "list" and len(x) == 8:
+            if x[0] in ("list", "tuple") and len(x) == 8:
                 days = [e[1] for e in x[1:] if e[0] == "str"]
                 names_ok = days == ["Sunday", "Monday", "Tuesday", "Wednesday", "Thursday", "Friday", "Saturday"]
     if names_ok:
